@@ -22,15 +22,15 @@ RULE = (
 )
 ASSUMPTIONS = [
     "animals >= 90 px apart, drift <= 2 px/frame, body size ~14 px (IoU/OKS/negative distance all prefer the own track)",
-    "fast scenario (distance-scoring configurations only): animals 100 px apart, all moving 30 px per frame in parallel, single-frame absences only - so the cumulative displacement exceeds the separation within the frame bound while each step stays far below it (stale-history bugs need this to show within a short history)",
+    "fast scenario (distance-scoring configurations only): animals 100 px apart, all moving 30 px per frame in parallel, single-frame absences, at most one absent frame per animal among the last window+2 frames - so the cumulative displacement exceeds the separation within the frame bound while each step stays far below it (stale-history bugs need this to show within a short history)",
     "absence counted in frames (empty frames included), which is never more lenient than the tracker's own queue-entry count",
     "bounds: quick K=3,F=3 and K=2,F=5, windows {2,3}; thorough K=3,F=5 and K=2,F=7, windows {1,2,3}, reductions {mean,max}",
     "state merging validated by replaying a 1-in-13 subset of merged histories on fresh trackers",
 ]
 
 
-def admissible(ev, seen_last, frame, window, fast=False):
-    """ev: list of (animal, score). seen_last: animal -> last frame seen."""
+def admissible(ev, seen_last, frame, window, fast=False, hist=()):
+    """ev: list of (animal, score). seen_last: animal -> last frame seen. hist: the frames so far."""
     present = {a for a, _ in ev}
     newcomers = [a for a in present if a not in seen_last]
     if newcomers and not all(a in present for a in seen_last):
@@ -40,8 +40,16 @@ def admissible(ev, seen_last, frame, window, fast=False):
             gap = frame - seen_last[a] - 1
             if not gap < window:
                 return False
-            if fast and gap > 1:
-                return False  # fast movers: only single-frame absences keep "movement << separation" meaningful
+            if fast:
+                # fast movers: "movement between detections << separation" only holds if detections are not thinned out:
+                # single-frame absences, and at most one absent frame among the last window+2 frames since first seen
+                if gap > 1:
+                    return False
+                first = next(i for i, e in enumerate(hist) if any(x[0] == a for x in e))
+                lo = max(first, frame - (window + 2))
+                absent = sum(1 for f in range(lo, frame) if not any(x[0] == a for x in hist[f]))
+                if absent > 1:
+                    return False
     return True
 
 
@@ -63,7 +71,7 @@ def explore(part, cfg, k, depth, fast=False):
         nxt = {}
         for hist, trk, ident, last in frontier:
             for ev in events:
-                if not admissible(ev, last, d, window, fast):
+                if not admissible(ev, last, d, window, fast, hist):
                     part.add("pruned_inadmissible")
                     continue
                 t2 = T.clone(trk)
